@@ -12,8 +12,9 @@ from jaqalpaq.parser.slyparse import JaqalParseError
 def guard_repo():
     import jaqalpaq.parser as p
     here = os.path.realpath(p.__file__)
-    if not here.startswith(os.path.realpath('/repo/src') + os.sep):
-        raise SystemExit('MACHINERY: jaqalpaq is not imported from /repo/src (%s)' % here)
+    root = os.environ.get('VERIF_REPO_SRC', '/repo/src')
+    if not here.startswith(os.path.realpath(root) + os.sep):
+        raise SystemExit('MACHINERY: jaqalpaq is not imported from %s (%s)' % (root, here))
 
 
 def classify_exc(e):
